@@ -30,7 +30,13 @@ def wchoice(rng, items):
 
 def hostile_host(rng):
     """-> (bytes, class)"""
-    k = rng.randrange(22)
+    k = rng.randrange(25)
+    if k in (22, 23, 24):
+        # valid UTF-8 whose byte length and character count fall on different sides of the 255 limits
+        ch = rng.choice(["\u00e9", "\u4e2d", "\U0001f600"])
+        n = rng.choice([64, 86, 100, 127, 128, 129, 200, 255])
+        pre = rng.choice(["", "a", "internal.corp09", "x." * 20])
+        return (pre + ch * n + rng.choice(["", ".sim"])).encode("utf-8"), "multibyte"
     if k == 0:
         return b"", "empty"
     if k == 1:
